@@ -593,7 +593,10 @@ Proof.
       right; left. simpl. apply Bool.orb_false_iff in B. destruct B as [B _]. apply N.ltb_ge in B.
       split; [reflexivity|]. split; [exact B|].
       destruct (pad_to_wf 4 ab Hb) as [W L]. pose proof (be_val_bound _ W) as BV. rewrite L in BV.
-      unfold is_v4, first_v4, after_v4. change (256 ^ N.of_nat 4) with 4294967296 in BV.
+      assert (P4 : 256 ^ N.of_nat 4 = 4294967296) by (vm_compute; reflexivity). rewrite P4 in BV.
+      assert (C1 : first_v4 = 281470681743360) by (vm_compute; reflexivity).
+      assert (C2 : after_v4 = 281474976710656) by (vm_compute; reflexivity).
+      unfold is_v4. rewrite C1, C2.
       apply Bool.andb_true_iff. split; [apply N.leb_le|apply N.ltb_lt]; lia.
     + destruct (f =? 2) eqn:F2; [|discriminate].
       destruct ((128 <? s) || (128 <? sc)) eqn:B; [discriminate|]. inversion H; subst.
